@@ -456,6 +456,11 @@ func (c *c15Case) runV2(api string) {
 		n, err := w.WriteTo(lab.PlainWriter{W: &buf})
 		pass2 := log.take()
 		if err != nil {
+			if n != int64(buf.Len()) {
+				t.ViolateD(api+"/failed-traversal/returned-count", c.detail(pass2, map[string]any{"returned": n, "written": buf.Len(), "error": err.Error()}),
+					"%s failed (%v) after writing %d bytes but returned %d", api, err, buf.Len(), n)
+			}
+			t.Cover("failed-traversal:count-checked")
 			c.onError(api, linkOpt, err, pass2, budget, hasBudget)
 			return
 		}
@@ -477,6 +482,13 @@ func (c *c15Case) runV2(api string) {
 		n, err := carv2.TraverseV1(bg, &ls, root, c.sel, lab.PlainWriter{W: &buf}, opts...)
 		lg := log.take()
 		if err != nil {
+			// a traversal that fails midway has already streamed sections out: the returned count is
+			// still "the bytes written"
+			if n != uint64(buf.Len()) {
+				t.ViolateD(api+"/failed-traversal/returned-count", c.detail(lg, map[string]any{"returned": n, "written": buf.Len(), "error": err.Error()}),
+					"%s failed (%v) after writing %d bytes but returned %d", api, err, buf.Len(), n)
+			}
+			t.Cover("failed-traversal:count-checked")
 			c.onError(api, linkOpt, err, lg, budget, hasBudget)
 			return
 		}
@@ -851,7 +863,7 @@ func init() {
 		},
 		Gen: genC15,
 		Run: runC15,
-		MinCover: map[string]int{
+		MinCover: map[string]int{"failed-traversal:count-checked": 20, 
 			"ok:v2.NewSelectiveWriter.WriteTo": 40, "ok:v2.TraverseV1": 40, "ok:v2.TraverseToFile": 40,
 			"ok:root.SelectiveCar.Write": 40, "ok:root.SelectiveCar.Prepare+Dump": 40, "ok:root.WriteCar": 40,
 			"dag:repeated-link": 30, "dag:shared-subtree": 30, "dag:mixed-codecs": 30,
